@@ -14,6 +14,7 @@ RULE = ('chains of <=4 commands over {Continue(f,*a,**k), Wait(f,msg,data)+resum
         'Kill(msg), raise} x argument shapes (no/one/many positional, keyword, mixed, None/falsy values) x sync/async continuations, each run '
         'plain and with every boundary a crash point; distinct by (chain, crash set); non-trivial when a continuation received arguments or a '
         'terminal command was judged')
+RULE += ('; also: values with an unusual == (equal to everything / no truth value), tuples, pause requests in the loop iteration of the resume, checkpoints in the window between a step\'s return and the next state, checkpoints written from the paused hook')
 ASSUMPTIONS = ['arguments are JSON-representable values (so equality after a pickle round trip is value equality), plus two resume values with an unusual == '
                '(equal to anything; == without a truth value) compared by their repr',
                'reference interpreter written from the property statement']
